@@ -33,8 +33,8 @@ type txrun struct {
 	w        *mbucket // the model's view inside the transaction
 	writable bool
 
-	own      map[string]bool // buckets whose own content was changed by this transaction
-	tree     map[string]bool // buckets created or deleted by this transaction
+	own      map[string]map[string]bool // bucket path -> keys ("#seq": the sequence) changed by this transaction
+	tree     map[string]bool            // buckets created or deleted by this transaction
 	anyMut   bool
 	evals    int
 	skipped  int
@@ -46,7 +46,7 @@ type txrun struct {
 
 func (x *txrun) reset() {
 	x.w = x.pre.clone()
-	x.own = map[string]bool{}
+	x.own = map[string]map[string]bool{}
 	x.tree = map[string]bool{}
 	x.anyMut = false
 }
@@ -56,10 +56,17 @@ func (x *txrun) fail(sig, format string, a ...interface{}) {
 }
 
 // related reports whether this transaction's own writes may legitimately
-// show at bucket path p.
-func (x *txrun) related(p string) bool {
-	if x.own[p] {
+// show at bucket path p (key "": anywhere in the bucket; "*": in its listing).
+func (x *txrun) related(p, key string) bool {
+	switch ks := x.own[p]; {
+	case key == "" && len(ks) > 0, ks[key]:
 		return true
+	case key == "*":
+		for k := range ks {
+			if k != "#seq" {
+				return true
+			}
+		}
 	}
 	for t := range x.tree {
 		if t == p || strings.HasPrefix(p, t+"/") {
@@ -69,15 +76,49 @@ func (x *txrun) related(p string) bool {
 	return false
 }
 
-// readSig picks the signature for a mismatching read at bucket path p.
-func (x *txrun) readSig(p string, o Op, plain, own string) string {
+// readSig picks the signature for a mismatching read at bucket path p. When
+// the transaction has not written to p but the result is exactly what another
+// bucket written by this transaction would give, the buckets are not
+// independent namespaces.
+func (x *txrun) readSig(p string, o Op, plain, own string, match func(*mbucket) bool) string {
 	if !x.anyMut {
 		return plain
 	}
-	if x.related(p) {
+	key := "*"
+	switch o.Kind {
+	case opGet, opNested:
+		key = o.K
+	case opSeq:
+		key = "#seq"
+	}
+	if x.related(p, key) {
 		return own
 	}
-	return "nested:not-independent:" + o.name()
+	if match != nil {
+		for q := range x.own {
+			if q == p {
+				continue
+			}
+			if b := x.at(q); b != nil && match(b) {
+				return "nested:not-independent:" + o.name()
+			}
+		}
+	}
+	return plain
+}
+
+// at returns the model bucket at a path of the in-transaction view.
+func (x *txrun) at(p string) *mbucket {
+	b := x.w
+	if p == "" {
+		return b
+	}
+	for _, n := range strings.Split(p, "/") {
+		if b = b.sub(n); b == nil {
+			return nil
+		}
+	}
+	return b
 }
 
 func q(b []byte) string {
@@ -202,7 +243,7 @@ func (x *txrun) step(root bk, o Op) {
 		msub := mb.sub(name)
 		x.evals++
 		if (nb.r != nil) != (msub != nil) {
-			x.fail(x.readSig(path, o, "nested:nilness", "nested:nilness"),
+			x.fail("nested:nilness",
 				"%s: nested bucket %q under %q: implementation returned nil=%v, model has bucket=%v", o, name, path, nb.r == nil, msub != nil)
 			return
 		}
@@ -223,32 +264,35 @@ func (x *txrun) step(root bk, o Op) {
 		g := cur.r.Get([]byte(o.K))
 		x.evals++
 		e := mb.ent[o.K]
-		ok := false
-		if e == nil || e.sub != nil {
-			ok = g == nil
-		} else {
-			ok = string(g) == e.val
+		match := func(m *mbucket) bool {
+			e := m.ent[o.K]
+			if e == nil || e.sub != nil {
+				return g == nil
+			}
+			return string(g) == e.val
 		}
-		if !ok {
+		if !match(mb) {
 			want := "nil"
 			if e != nil && e.sub == nil {
 				want = strconv.Quote(e.val)
 			}
-			x.fail(x.readSig(path, o, "get:value", "read-own-write:get"), "%s returned %s, model says %s (model bucket %s)", o, q(g), want, mb)
+			x.fail(x.readSig(path, o, "get:value", "read-own-write:get", match), "%s returned %s, model says %s (model bucket %s)", o, q(g), want, mb)
 		}
 
 	case opNested:
 		b := cur.r.NestedReadBucket([]byte(o.K))
 		x.evals++
-		if (b != nil) != (mb.sub(o.K) != nil) {
-			x.fail(x.readSig(path, o, "nested:nilness", "nested:nilness"), "%s returned nil=%v, model has bucket=%v (model bucket %s)", o, b == nil, mb.sub(o.K) != nil, mb)
+		match := func(m *mbucket) bool { return (b != nil) == (m.sub(o.K) != nil) }
+		if !match(mb) {
+			x.fail(x.readSig(path, o, "nested:nilness", "nested:nilness", match), "%s returned nil=%v, model has bucket=%v (model bucket %s)", o, b == nil, mb.sub(o.K) != nil, mb)
 		}
 
 	case opSeq:
 		s := cur.r.Sequence()
 		x.evals++
-		if s != mb.seq {
-			x.fail(x.readSig(path, o, "sequence:value", "sequence:value"), "%s returned %d, model says %d", o, s, mb.seq)
+		match := func(m *mbucket) bool { return s == m.seq }
+		if !match(mb) {
+			x.fail(x.readSig(path, o, "sequence:value", "sequence:value", match), "%s returned %d, model says %d", o, s, mb.seq)
 		}
 
 	case opForEach:
@@ -259,13 +303,23 @@ func (x *txrun) step(root bk, o Op) {
 		})
 		x.evals++
 		want := mb.list()
-		if err != nil || !sameListing(gs, want, true) {
-			x.fail(x.readSig(path, o, "foreach:listing", "foreach:listing"), "%s listed %s (err=%v), model says %s", o, gotString(gs), err, pairsString(want))
+		match := func(m *mbucket) bool { return err == nil && sameListing(gs, m.list(), true) }
+		if !match(mb) {
+			x.fail(x.readSig(path, o, "foreach:listing", "foreach:listing", match), "%s listed %s (err=%v), model says %s", o, gotString(gs), err, pairsString(want))
 		}
 
 	case opFwd, opBwd, opSeek:
 		c := cur.r.ReadCursor()
-		want := mb.list()
+		wantOf := func(m *mbucket) []pair {
+			switch o.Kind {
+			case opBwd:
+				return reverse(m.list())
+			case opSeek:
+				return m.list()[m.firstGE(o.K):]
+			}
+			return m.list()
+		}
+		want := wantOf(mb)
 		var k, v []byte
 		sig := "cursor:order-forward"
 		switch o.Kind {
@@ -273,11 +327,9 @@ func (x *txrun) step(root bk, o Op) {
 			k, v = c.First()
 		case opBwd:
 			k, v = c.Last()
-			want = reverse(want)
 			sig = "cursor:order-backward"
 		case opSeek:
 			k, v = c.Seek([]byte(o.K))
-			want = want[mb.firstGE(o.K):]
 			sig = "cursor:seek"
 		}
 		var gs []got
@@ -290,8 +342,9 @@ func (x *txrun) step(root bk, o Op) {
 			}
 		}
 		x.evals++
-		if !sameListing(gs, want, false) {
-			x.fail(x.readSig(path, o, sig, sig), "%s walked %s, model says %s", o, gotString(gs), pairsString(want))
+		match := func(m *mbucket) bool { return sameListing(gs, wantOf(m), false) }
+		if !match(mb) {
+			x.fail(x.readSig(path, o, sig, sig, match), "%s walked %s, model says %s", o, gotString(gs), pairsString(want))
 		}
 
 	case opPut:
@@ -306,7 +359,7 @@ func (x *txrun) step(root bk, o Op) {
 		}
 		if x.mutResult(o, err, want) && want == nil {
 			if e == nil || e.val != o.V {
-				x.mutated(path, "")
+				x.mutated(path, o.K, "")
 			}
 			mb.ent[o.K] = &ment{val: o.V}
 		}
@@ -320,7 +373,7 @@ func (x *txrun) step(root bk, o Op) {
 		}
 		if x.mutResult(o, err, want) && want == nil && e != nil {
 			delete(mb.ent, o.K)
-			x.mutated(path, "")
+			x.mutated(path, o.K, "")
 		}
 
 	case opCreate, opCINE:
@@ -348,7 +401,7 @@ func (x *txrun) step(root bk, o Op) {
 			}
 			if e == nil {
 				mb.ent[o.K] = &ment{sub: newBucket()}
-				x.mutated(path, joinPath(path, o.K))
+				x.mutated(path, o.K, joinPath(path, o.K))
 			}
 		}
 
@@ -376,14 +429,14 @@ func (x *txrun) step(root bk, o Op) {
 		}
 		if x.mutResult(o, err, want) && want == nil {
 			delete(mb.ent, o.K)
-			x.mutated(path, joinPath(path, o.K))
+			x.mutated(path, o.K, joinPath(path, o.K))
 		}
 
 	case opNextSeq:
 		s, err := cur.w.NextSequence()
 		if x.mutResult(o, err, nil) {
 			mb.seq++
-			x.mutated(path, "")
+			x.mutated(path, "#seq", "")
 			x.evals++
 			if s != mb.seq {
 				x.fail("sequence:value", "%s returned %d, model says %d", o, s, mb.seq)
@@ -394,7 +447,7 @@ func (x *txrun) step(root bk, o Op) {
 		err := cur.w.SetSequence(o.N)
 		if x.mutResult(o, err, nil) {
 			if mb.seq != o.N {
-				x.mutated(path, "")
+				x.mutated(path, "#seq", "")
 			}
 			mb.seq = o.N
 		}
@@ -415,7 +468,7 @@ func (x *txrun) step(root bk, o Op) {
 			if i >= 0 && i < len(ps) {
 				want = pairsString(ps[i : i+1])
 			}
-			x.fail(x.readSig(path, o, "cursor:position", "cursor:position"), "%s positioned at %s=%s, model says %s (model bucket %s)", o, q(k), q(v), want, mb)
+			x.fail("cursor:position", "%s positioned at %s=%s, model says %s (model bucket %s)", o, q(k), q(v), want, mb)
 			return
 		}
 		if k == nil {
@@ -428,7 +481,7 @@ func (x *txrun) step(root bk, o Op) {
 		}
 		if x.mutResult(o, err, want) && want == nil {
 			delete(mb.ent, ps[i].k)
-			x.mutated(path, "")
+			x.mutated(path, ps[i].k, "")
 		}
 	}
 }
@@ -451,9 +504,12 @@ func (x *txrun) position(c walletdb.ReadCursor, mb *mbucket, o Op) (int, []byte,
 	return i, cp(k), cp(v)
 }
 
-func (x *txrun) mutated(own, tree string) {
+func (x *txrun) mutated(own, key, tree string) {
 	x.anyMut = true
-	x.own[own] = true
+	if x.own[own] == nil {
+		x.own[own] = map[string]bool{}
+	}
+	x.own[own][key] = true
 	if tree != "" {
 		x.tree[tree] = true
 	}
@@ -551,16 +607,22 @@ func (x *txrun) roErr(o Op, err error, _ bool) {
 
 // readModel reads a real bucket into a model value through ForEach,
 // NestedReadBucket and Sequence.
-func readModel(b walletdb.ReadBucket) *mbucket {
+func readModel(b walletdb.ReadBucket) *mbucket { return readModelDepth(b, 0) }
+
+func readModelDepth(b walletdb.ReadBucket, depth int) *mbucket {
 	m := newBucket()
 	m.seq = b.Sequence()
+	if depth > maxDepth+1 {
+		m.trunc = true // deeper than anything the harness ever writes
+		return m
+	}
 	_ = b.ForEach(func(k, v []byte) error {
 		ks := string(k)
 		if _, ok := m.ent[ks]; ok {
 			m.dup = true
 		}
 		if nb := b.NestedReadBucket(k); nb != nil {
-			m.ent[ks] = &ment{sub: readModel(nb)}
+			m.ent[ks] = &ment{sub: readModelDepth(nb, depth+1)}
 		} else {
 			m.ent[ks] = &ment{val: string(v)}
 		}
